@@ -497,6 +497,8 @@ class ProgGen:
                 pool += ["lognot", "invert"]
             if kind == "c":
                 pool += ["conj", "real", "abs", "neg"]
+            if kind == "m":
+                pool += ["neg", "abs"]
             if not pool:
                 return None
             return {"op": "un", "f": r.choice(pool), "a": p}
@@ -526,6 +528,10 @@ class ProgGen:
                 pool = ["logand", "logxor", "eq", "ne", "add", "mul"]
             if kind in "cMm":
                 pool = ["eq", "ne"] if kind != "c" else ["add", "mul", "eq", "sub"]
+            if kind in "Mm" and r.random() < 0.7:
+                # datetime/timedelta arithmetic needs a partner of the same kind: a fresh leaf of the same dtype
+                q = self.leaf(self.compatible_shape(list(x.shape)), str(x.dtype))
+                pool = ["eq", "ne", "less", "ge", "sub", "maximum", "minimum"] + (["add"] if kind == "m" else [])
             f = r.choice(pool)
             if kind == "b" and f in ("sub",):
                 return None
